@@ -116,6 +116,13 @@ func (s *State) assume(t *Term) {
 	if t.IsTrue() {
 		return
 	}
+	if t.Op == OAnd {
+		// conjuncts are kept separately: unit propagation and the interval prover work on literals
+		for _, a := range t.Args {
+			s.assume(a)
+		}
+		return
+	}
 	s.pc = append(s.pc, t)
 }
 
